@@ -151,6 +151,7 @@ Inductive op :=
 | OStop (h : nat)
 | OClose (h : nat)                                        (* uv_close *)
 | OObs
+| OWalk                          (* uv_walk: note every handle visited, then uv_close each one not closing *)
 | ORelease (res : nat -> sres)   (* the pool runs every queued stat; res path = the answer *)
 | OAdvance (d : Z)               (* the clock moves *)
 | ORun                           (* one loop iteration (uv_run NOWAIT) *)
@@ -164,6 +165,7 @@ Inductive event :=
 | EStat (path : nat)                                           (* a worker stats [path] *)
 | EIter                                                        (* a loop iteration begins *)
 | EUser (id : nat)                                             (* callback of the script's timer id *)
+| EWalk (l : list nat)                                         (* the fs_poll handles uv_walk visited *)
 | EObs (l : list (bool * bool * option nat))                   (* active, closing, getpath *)
 | EFinal (rc : Z) (live : nat).                                (* uv_loop_close, contexts not freed *)
 
@@ -224,6 +226,24 @@ Definition observe (s : st) : event :=
                                           | [] => None end
                        else None)) (hs s)).
 
+(* loop->handle_queue as far as this model goes: the fs_poll handles that are initialised and not
+   yet closed, and the timers of the contexts (hq).  uv_walk skips handles flagged
+   UV_HANDLE_INTERNAL, which uv_fs_poll_start sets on every context timer. *)
+Inductive qitem := QH (h : nat) | QT (c : nat).
+Definition internal (it : qitem) : bool := match it with QT _ => true | QH _ => false end.
+Definition handle_queue (s : st) : list qitem :=
+  map QH (filter (fun h => negb (h_closed (geth s h))) (seq 0 (length (hs s)))) ++ map QT (hq s).
+Definition uv_walk (s : st) : list qitem := filter (fun it => negb (internal it)) (handle_queue s).
+Definition walk_targets (s : st) : list nat :=
+  flat_map (fun it => match it with QH h => [h] | QT _ => [] end) (uv_walk s).
+
+(* the walk-and-close-all teardown: uv_close on every visited handle that is not closing; the
+   script's own timers are visited and closed too (those that are armed or in the ready queue
+   never fire) *)
+Definition do_walk (s : st) : st :=
+  let s1 := fold_left (fun s h => if h_closing (geth s h) then s else do_close s h) (walk_targets s) s in
+  match ut s1 with [] => s1 | _ => set_ut s1 [] end.
+
 (* one API call; calls on handles that do not exist, start/close on a closing
    handle are not made (neither by the harness) *)
 Definition api (s : st) (o : op) : st * list event :=
@@ -235,6 +255,7 @@ Definition api (s : st) (o : op) : st * list event :=
   | OStop h => if valid s h && negb (h_closed (geth s h)) then (do_stop s h, [ERet 0]) else (s, [])
   | OClose h => if valid s h && negb (h_closing (geth s h)) then (do_close s h, []) else (s, [])
   | OObs => (s, [observe s])
+  | OWalk => (do_walk s, [EWalk (walk_targets s)])
   | _ => (s, [])
   end.
 
@@ -364,13 +385,13 @@ Definition due_items (s : st) : list (Z * Z * ritem) :=
 (* first loop of uv__run_timers: every due timer is stopped (off the heap, inactive) and put
    on the ready queue *)
 Definition collect (s : st) (items : list ritem) : st :=
-  let s1 := fold_left (fun s it => match it with
-                                   | RCtx c => upd_c s c (c_set_timer TReady)
-                                   | RUser _ => s end) items s in
-  match items with
-  | [] => s1
-  | _ => set_ut s1 (filter (fun u => negb (snd (fst u) <=? now s)) (ut s))
-  end.
+  fold_left (fun s it => match it with
+                         | RCtx c => upd_c s c (c_set_timer TReady)
+                         | RUser _ => s end) items s.
+
+Definition ut_has (s : st) (id : nat) : bool := existsb (fun u => Nat.eqb (fst (fst u)) id) (ut s).
+Definition ut_remove (s : st) (id : nat) : st :=
+  set_ut s (filter (fun u => negb (Nat.eqb (fst (fst u)) id)) (ut s)).
 
 (* timer_cb, fs-poll.c:178-199: the timer has fired (inactive again).  Since 56a9a49 (fx = true) a
    context whose handle has been stopped, or which has been superseded -- uv_fs_poll_stop / stop +
@@ -393,9 +414,13 @@ Fixpoint fire_ready (l : list ritem) (s : st) (cnt : nat) : st * list event * na
   | [] => (s, [], cnt)
   | RCtx c :: l' => fire_ready l' (timer_fire s c) cnt
   | RUser id :: l' =>
-      let '(s1, e1) := apis s (beh cnt) in
-      let '(s2, e2, n2) := fire_ready l' s1 (S cnt) in
-      (s2, EUser id :: e1 ++ e2, n2)
+      (* a timer of the script that was closed meanwhile (uv_walk in an earlier callback of this
+         pass) has left the ready queue *)
+      if ut_has s id then
+        let '(s1, e1) := apis (ut_remove s id) (beh cnt) in
+        let '(s2, e2, n2) := fire_ready l' s1 (S cnt) in
+        (s2, EUser id :: e1 ++ e2, n2)
+      else fire_ready l' s cnt
   end.
 
 Definition run_timers (s : st) (cnt : nat) : st * list event * nat :=
